@@ -131,7 +131,12 @@ fn judge_curve2(case: &Case, l: &mut Local) {
                     let v = a.points();
                     (0..v.len()).map(|i| v[i].x * v[(i + 1) % v.len()].y - v[(i + 1) % v.len()].x * v[i].y).sum()
                 };
-                if hull_area.abs() > 1e-9 {
+                // the orientation of a vertex sequence is defined for simple polygons only (on a sequence that
+                // folds back onto itself the hull-order vote depends on whether a collinear vertex makes it
+                // into the hull, i.e. on rounding)
+                if hull_area.abs() > 1e-9 && !crate::props::c05::is_simple_polygon2(&pts) {
+                    l.gray("orientation of a non-simple vertex sequence");
+                } else if hull_area.abs() > 1e-9 {
                     l.bucket("orientation-normalised curve x iso");
                     let same = a.count() == b.count() && a.points().iter().zip(b.points().iter()).all(|(p, q)| d2(&(iso * p), q) <= tol);
                     l.check("curve2: counter-clockwise construction commutes with the motion", "", same, mk, || format!("{:?} vs {:?}", a.points().iter().map(|p| iso * p).collect::<Vec<_>>(), b.points()));
@@ -286,10 +291,16 @@ fn judge_plane(case: &Case, l: &mut Local) {
     let pt = pl.transform_by(&iso);
     l.eval();
     l.bucket("plane x iso");
+    // the plane seen from the other side is the same plane: inverting commutes with the motion and only
+    // negates signed distances
+    let (pi, pti) = (pl.inverted_normal(), pt.inverted_normal());
+    let moved_inv = pi.transform_by(&iso);
+    l.check("plane: inverting the normal commutes with the motion", "", (moved_inv.normal.into_inner() - pti.normal.into_inner()).norm() <= 1e-9 && (moved_inv.d - pti.d).abs() <= tol, mk, || format!("{:?} {} vs {:?} {}", moved_inv.normal, moved_inv.d, pti.normal, pti.d));
     for q in queries3() {
         l.eval();
         let qt = iso * q;
         let (a, b) = (pl.signed_distance_to_point(&q), pt.signed_distance_to_point(&qt));
+        l.check("plane: the inverted plane measures the negated signed distance and projects to the same point", "", (pi.signed_distance_to_point(&q) + a).abs() <= tol && (pti.signed_distance_to_point(&qt) + b).abs() <= tol && d3(&pi.project_point(&q), &pl.project_point(&q)) <= tol, mk, || format!("q {:?}: {} vs {}", q, pi.signed_distance_to_point(&q), a));
         l.outcome(hash_of(&(a > 0.0, a == 0.0)));
         l.check("plane: signed distance invariant", "", (a - b).abs() <= tol, mk, || format!("q {:?}: {} vs {}", q, a, b));
         l.check("plane: distance invariant", "", (pl.distance_to_point(&q) - pt.distance_to_point(&qt)).abs() <= tol, mk, String::new);
